@@ -1290,9 +1290,6 @@ class Results(object):
         """Removes any hits that are not also in the other results object.
         """
 
-        if not len(results):
-            return
-
         otherdocs = results.docs()
         items = [item for item in self.top_n if item[1] in otherdocs]
         self.docset = self.docs() & otherdocs
